@@ -34,7 +34,9 @@ def strategy(tier):
   big = tier == 'thorough'
   return st.one_of(
     st.fixed_dictionaries({'mode': st.integers(0, 2), 'h': O.history('general', 1, 14 if big else 10)}),
-    st.fixed_dictionaries({'mode': st.integers(0, 2), 'h': O.history('schema', 1, 14 if big else 10)}),
+    st.fixed_dictionaries({'mode': st.integers(0, 2), 'h': O.history('schema', 1, 14 if big else 10, max_ops=3)}),
+    st.fixed_dictionaries({'mode': st.integers(0, 2), 'h': O.history('typechange', 1, 14 if big else 10)}),
+    st.fixed_dictionaries({'mode': st.integers(0, 2), 'h': O.history('combo', 1, 8, max_ops=4)}),
   )
 
 
